@@ -46,7 +46,7 @@ func windowResidue(t *rapid.T, m *big.Int, label string) *big.Int {
 // unreduced sum / Montgomery product lands in [m, 2^256).
 func Pair(t *rapid.T, m *big.Int, label string) (a, b *big.Int, kind string) {
 	a = Int256(t, m, label+"_a")
-	kind = rapid.SampledFrom([]string{
+	kind = Sampled([]string{
 		PairIndependent, PairIndependent, PairSumWindow, PairNear, PairProdWindow,
 		PairSquareWin, PairBitFlip, PairNeg, PairInv, PairEqual,
 	}).Draw(t, label+"_kind")
